@@ -129,16 +129,51 @@ def check_fanout(case, part):
         part.violation(case, "an empty batch was sent to a worker")
 
 
+def check_fanout_post(case, part):
+    """the posterior-draw fan-out (tasks carry a child generator each): every requested index, once, in order"""
+    from thejoker.multiproc_helpers import make_full_samples
+    import astropy.units as u
+
+    N = case["N"]
+    path = _lib_file(N)
+    helper = seams.StubHelper({i: -float(i) for i in range(N)})
+    if case["pool"] == "serial":
+        import schwimmbad
+
+        pool = schwimmbad.SerialPool()
+    else:
+        pool = seams.ModelPool(size=case["size"], chunksize=case.get("chunksize"),
+                               order=(lambda n: list(range(n))[::-1]) if case.get("reverse") else None)
+    idx = np.array(case["idx"], dtype=np.int64)
+    seams.reset_logs()
+    try:
+        res = make_full_samples(helper, path, pool, np.random.default_rng(2), idx, n_linear_samples=case["n_linear"], n_batches=case["n_batches"])
+    except Exception as e:
+        part.violation(case, f"make_full_samples raised {type(e).__name__}: {e}")
+        return
+    got = [seams.StubHelper.row_id(p) for p in np.atleast_1d(res["P"].to_value(u.day))]
+    want = [int(i) for i in case["idx"] for _ in range(case["n_linear"])]
+    nb_used = len([e for e in seams.CALL_LOG if e[0] == "post"])
+    part.record(case, outcome=(nb_used, tuple(got) == tuple(want)), nontrivial=nb_used > 1)
+    if got != want:
+        part.violation(case, "posterior-draw fan-out does not return exactly the requested rows, in order, n_linear times each", expected=want, observed=got)
+    K = np.atleast_1d(res["K"].to_value(u.km / u.s))
+    if len(set(K.tolist())) != len(K):
+        part.violation(case, "two returned rows share a linear draw (tasks did not get their own stream)", observed=K.tolist())
+
+
 def shard_fanout(cases):
     part = core.Part()
     for c in cases:
-        check_fanout(c, part)
+        run_case(c, part)
     return part
 
 
 def run_case(case, part):
     if case["kind"] == "batch_tasks":
         check_batch_tasks(case, part)
+    elif case["kind"] == "fanout_post":
+        check_fanout_post(case, part)
     else:
         check_fanout(case, part)
 
@@ -171,6 +206,14 @@ def build_cases(quick):
                                         n_batches=nb, n_prior=N - 1, idx=None))
                         fan.append(dict(kind="fanout", N=N, pool="model", size=size, chunksize=cs, reverse=rev,
                                         n_batches=nb, n_prior=None, idx=idx_alts[2]))
+    for N in Ns:
+        idxs = [list(range(N)), list(range(N))[::-1], [(3 * i + 1) % N for i in range(N)], [N - 1], [0, N - 1, 1][: min(3, N)]]
+        for idx in idxs:
+            for nb in [None] + list(range(1, N + 3)):
+                for nl in (1, 2):
+                    fan.append(dict(kind="fanout_post", N=N, pool="serial", size=1, n_batches=nb, n_linear=nl, idx=idx))
+                    for size in (1, 2, 3):
+                        fan.append(dict(kind="fanout_post", N=N, pool="model", size=size, chunksize=1, reverse=True, n_batches=nb, n_linear=nl, idx=idx))
     return cases, fan
 
 
